@@ -112,6 +112,10 @@ class Ref:
             if posts and f.get("snaps"):
                 for s in f["snaps"]:
                     self.log.append(["cap", fname + "." + s["name"], x])
+                    for callee, ae in s.get("calls", []):
+                        r = self.call(callee, arg(ae, x))
+                        if r[0] == "raise":
+                            return r
                     if s.get("v") == "raise":
                         return ["raise", "Boom"]
         finally:
@@ -287,6 +291,8 @@ class Real:
 
         def cap(x):
             me.log.append(["cap", fname + "." + s["name"], x])
+            for callee, ae in s.get("calls", []):
+                me.funcs[callee](arg(ae, x))
             if s.get("v") == "raise":
                 raise Boom("Boom")
             return x
@@ -403,6 +409,11 @@ def programs(hints=()):
             "f": {"pre": [[C(True, calls=[["g", "x"]], is_async=am), C(True, calls=[["g", "x"]], is_async=am)]]},
             "g": {"pre": [[C(True, calls=[["f", "x"]], is_async=am), C(True, calls=[["f", "x"]], is_async=am)]]}},
             "calls": [["f", 1], ["g", 1]]}))
+        if not am:
+            out.append(("reentrant capture", {"mode": mode, "funcs": {"f": {"post": [C(True)], "snaps": [{"name": "s", "v": "x", "calls": [["f", "x"]]}]}}, "calls": [["f", 1], ["f", 1]]}))
+            out.append(("reentrant capture mutual", {"mode": mode, "funcs": {
+                "f": {"post": [C(True)], "snaps": [{"name": "s", "v": "x", "calls": [["g", "x"]]}]},
+                "g": {"post": [C(True)], "snaps": [{"name": "s", "v": "x", "calls": [["f", "x"]]}]}}, "calls": [["f", 1]]}))
         out.append(("body_recursion", {"mode": mode, "funcs": {"f": {"pre": [[C("ge0")]], "body": {"calls": [["f", -1, True]]}}}, "calls": [["f", 1], ["f", 0]]}))
         out.append(("body_recursion post", {"mode": mode, "funcs": {"f": {"post": [C("ge0")], "body": {"calls": [["f", -1, True]]}}}, "calls": [["f", 1]]}))
         out.append(("body_recursion other", {"mode": mode, "funcs": {"f": {"pre": [[C("ge0")]], "body": {"calls": [["g", "x-1", True]]}},
